@@ -1034,6 +1034,9 @@ class Engine:
                 if tgt is not None and _contains_tracked(tgt):
                     raise Unsupported(f"unmodelled function {short} receives a value with tracked resources "
                                       f"({_describe(tgt)}): its effect on them is unknown")
+                if not isinstance(a, VRef) and isinstance(a, VAgg) and any(isinstance(x, (VAgg, VRef)) for x in a.fields.values()):
+                    # a structured value handed by value to an unknown function would silently disappear
+                    raise Unsupported(f"unmodelled function {short} consumes a structured value ({_describe(a)[:60]}): its effect is unknown")
                 if isinstance(a, VRef) and a.mut and isinstance(tgt, VAgg) and tgt.name not in ('tuple',) and (tgt.fields or tgt.extra):
                     # havocking a concrete container / struct behind a &mut would silently change what later code sees
                     raise Unsupported(f"unmodelled function {short} may mutate a concrete value ({_describe(tgt)[:60]}) through &mut: its effect is unknown")
